@@ -34,6 +34,7 @@ verus! {
 //@include spec/plain.rs
 //@include spec/grammar_view.rs
 //@include spec/roundtrip.rs
+//@include spec/roundtrip_lex.rs
 //@include spec/indep.rs
 //@include spec/subst.rs
 //@include spec/rewrites.rs
